@@ -12,10 +12,17 @@
      src       the template as last saved by the user
      prev      the GeneratorOutput of the last generation (fileNameToOutput)
      txt       the literals last written to the development text file
+     lastTextHash  the hash of the literals the handler remembers for the text file (FSEventHandler.hashes):
+               the file is only rewritten when the hash of the new literals differs (UpsertHash)
      compiled  the operations of the program that is running (last build)
      pending   a rebuild has been requested (GoUpdated) and not happened yet
-   Edit(T') saves a new template, Regenerate runs the generator, writes txt and decides
-   GoUpdated := HasChanged(prev, out), Rebuild is enabled iff a rebuild was requested.
+   Edit(T') saves a new template, Regenerate runs the generator, decides TextUpdated := UpsertHash(txt file,
+   hash(literals)) and rewrites txt iff TextUpdated, decides GoUpdated := HasChanged(prev, out); Rebuild is
+   enabled iff a rebuild was requested.
+   TextHashRule selects what is hashed: "joined" = sha256(strings.Join(literals, "\n")) as coded -- the escaped
+   literals contain no raw newline, so this is injective on literal LISTS and modelled as the list itself;
+   "concat" = a hash over the literals fed one after the other without separator (plausible "optimisation"):
+   only the concatenation counts, not where one literal ends and the next begins.
 
    RenderDev  = the compiled operations, literal i read from txt (runtime/watchmode.go WriteString)
    RenderFresh= the operations and literals of Generate(src).
@@ -34,13 +41,14 @@ EXTENDS Integers, Sequences, FiniteSets, TLC, Json
 CONSTANTS MaxItems,     \* templates have at most this many items
           Choices,      \* the items a template is built from: records [k, e]
           ChangeRule,   \* "coded" | "codehash" | "noexprs"
+          TextHashRule, \* "joined" (as coded) | "concat"
           MaxEdits,     \* edits without an intervening rebuild
           EmitEdges     \* TRUE: print every Regenerate transition for replay against the real code
 
-VARIABLES src, prev, txt, compiled, pending, dirty, nedits,
+VARIABLES src, prev, txt, lastTextHash, compiled, pending, dirty, nedits,
           csrc, psrc,   \* history: the templates behind `compiled` and `prev` (for replay)
           lbl
-vars == <<src, prev, txt, compiled, pending, dirty, nedits, csrc, psrc>>
+vars == <<src, prev, txt, lastTextHash, compiled, pending, dirty, nedits, csrc, psrc>>
 
 -----------------------------------------------------------------------------
 (* fragments of one item. n = number of Go variables the generator has created so far
@@ -106,6 +114,13 @@ Generate(T) == LET c == Close(AllFrags(T, 1, 1), 1, << >>, << >>, << >>, FALSE)
                IN  [ops |-> c.ops, lits |-> c.lits, exprs |-> AllExprs(T, 1, 1), opts |-> "opts"]
 
 -----------------------------------------------------------------------------
+(* the hash that decides whether the text file is rewritten (eventhandler.generate, devMode branch) *)
+RECURSIVE Flat(_)
+Flat(ls) == IF ls = << >> THEN << >> ELSE Head(ls) \o Flat(Tail(ls))
+TextHash(lits) == IF TextHashRule = "joined" THEN <<"joined", lits>> ELSE <<"concat", Flat(lits)>>
+\* an edit that moves static text across Go code: same concatenated text, different literal boundaries
+BoundaryMove(p, u) == Flat(p.lits) = Flat(u.lits) /\ p.lits # u.lits
+
 (* generator.HasChanged(previous, updated) *)
 HasChangedCoded(p, u) == \/ p.opts # u.opts
                          \/ Len(p.lits) # Len(u.lits)
@@ -158,12 +173,13 @@ EditKind(T, U) ==
     ELSE IF \E i \in 1..Len(T) : \E x \in Choices : U = Replace(T, i, x) /\ T[i].k = "lit" /\ x.k = "lit" THEN "text-edit"
     ELSE IF \E i \in 1..Len(T) : \E x \in Choices : U = Replace(T, i, x) /\ T[i].k # "lit" /\ x.k # "lit" /\ T[i].e = x.e THEN "move-expression-to-other-sink"
     ELSE IF \E i \in 1..Len(T) : \E x \in Choices : U = Replace(T, i, x) THEN "replace-item"
+    ELSE IF Flat(Generate(T).lits) = Flat(Generate(U).lits) THEN "move-text-across-go-code"
     ELSE "reorder"
 
 -----------------------------------------------------------------------------
 Init == /\ src \in Templates
         /\ LET g == Generate(src) IN
-           /\ prev = g /\ txt = g.lits /\ compiled = g.ops
+           /\ prev = g /\ txt = g.lits /\ compiled = g.ops /\ lastTextHash = TextHash(g.lits)
         /\ pending = FALSE /\ dirty = FALSE /\ nedits = 0
         /\ csrc = src /\ psrc = src
         /\ lbl = [op |-> "init"]
@@ -171,7 +187,7 @@ Init == /\ src \in Templates
 \* the user saves an edited template
 Edit(U) == /\ ~dirty /\ ~pending /\ nedits < MaxEdits
            /\ src' = U /\ dirty' = TRUE /\ nedits' = nedits + 1
-           /\ UNCHANGED <<prev, txt, compiled, pending, csrc, psrc>>
+           /\ UNCHANGED <<prev, txt, lastTextHash, compiled, pending, csrc, psrc>>
            /\ lbl' = [op |-> "edit", kind |-> EditKind(src, U)]
 
 \* attribution of a regeneration that requests no rebuild although the running code no longer fits
@@ -189,12 +205,14 @@ Signature(cops, g) ==
 Regenerate == /\ dirty
               /\ LET g  == Generate(src)
                      go == HasChanged(prev, g)
-                 IN /\ txt' = g.lits
+                     h  == TextHash(g.lits)
+                 IN /\ txt' = (IF h # lastTextHash THEN g.lits ELSE txt)      \* TextUpdated: os.WriteFile only if UpsertHash says so
+                    /\ lastTextHash' = h
                     /\ pending' = (pending \/ go)
                     /\ prev' = g
-                    /\ lbl' = [op |-> "regen", c |-> csrc, p |-> psrc, s |-> src,
+                    /\ lbl' = [op |-> "regen", c |-> csrc, p |-> psrc, s |-> src, go |-> go, txtupd |-> (h # lastTextHash),
                                coded |-> HasChangedCoded(prev, g), hash |-> HasChangedHash(prev, g),
-                               nlits |-> Len(g.lits), exprs |-> g.exprs,
+                               nlits |-> Len(g.lits), exprs |-> g.exprs, boundary |-> BoundaryMove(prev, g),
                                sig |-> Signature(compiled, g)]
               /\ psrc' = src /\ dirty' = FALSE
               /\ UNCHANGED <<src, compiled, nedits, csrc>>
@@ -203,7 +221,7 @@ Regenerate == /\ dirty
 Rebuild == /\ pending /\ ~dirty
            /\ compiled' = prev.ops /\ csrc' = psrc
            /\ pending' = FALSE /\ nedits' = 0
-           /\ UNCHANGED <<src, prev, txt, dirty, psrc>>
+           /\ UNCHANGED <<src, prev, txt, lastTextHash, dirty, psrc>>
            /\ lbl' = [op |-> "rebuild"]
 
 Next == \/ \E U \in Edits(src) : Edit(U)
@@ -224,12 +242,14 @@ DevEqualsNormal == (Quiescent /\ csrc = src) => RenderDev = RenderFresh
 TypeOK == /\ Len(src) <= MaxItems
           /\ compiled = Generate(csrc).ops
           /\ prev = Generate(psrc)
-          /\ (~dirty => (psrc = src /\ txt = prev.lits))
+          /\ (~dirty => psrc = src)
+\* after every generation the text file holds the literals of that generation
+TextFileCurrent == ~dirty => txt = prev.lits
 RenderNeverFails == Quiescent => \A i \in 1..Len(RenderDev) : RenderDev[i].f # "ERR"
 
 View == vars
 \* emission: the edit counter only bounds the exploration; without it each (compiled, previous, saved) triple is one state
-ViewGen == <<src, prev, txt, compiled, pending, dirty, csrc, psrc>>
+ViewGen == <<src, prev, txt, lastTextHash, compiled, pending, dirty, csrc, psrc>>
 Emit == IF EmitEdges /\ lbl'.op = "regen"
         THEN PrintT(<<"EDGE", ToJson(lbl')>>)
         ELSE TRUE
